@@ -152,7 +152,25 @@ func VerifyAuthRulesAtState(ctx context.Context, sp StateProvider, eventToVerify
 	if ctx.Err() != nil {
 		return fmt.Errorf("gomatrixserverlib.VerifyAuthRulesAtState: context cancelled: %w", ctx.Err())
 	}
-	if err := checkAllowedByAuthEvents(eventToVerify, roomState, nil, userIDForSender); err != nil {
+	// The event is judged by the state before it, not by that part of the state which it
+	// chose to cite: a state event it does not cite (newer power levels, a ban, ...) counts.
+	stateAuth, _ := NewAuthEvents(nil)
+	stateTuples := map[StateKeyTuple]string{}
+	for _, ev := range roomState {
+		if ev == nil || ev.StateKey() == nil {
+			continue
+		}
+		tuple := StateKeyTuple{EventType: ev.Type(), StateKey: *ev.StateKey()}
+		if prev, dup := stateTuples[tuple]; dup && prev != ev.EventID() {
+			return fmt.Errorf(
+				"gomatrixserverlib.VerifyAuthRulesAtState: the state before event %s has two events for (%q, %q)",
+				eventToVerify.EventID(), tuple.EventType, tuple.StateKey,
+			)
+		}
+		stateTuples[tuple] = ev.EventID()
+		_ = stateAuth.AddEvent(ev)
+	}
+	if err := Allowed(eventToVerify, stateAuth, userIDForSender); err != nil {
 		return fmt.Errorf(
 			"gomatrixserverlib.VerifyAuthRulesAtState: event %s is not allowed at state %s : %w",
 			eventToVerify.EventID(), eventToVerify.EventID(), err,
